@@ -165,8 +165,8 @@ def render_block(block, indent: int, out: list):
     pad = ' ' * indent
     for st in block:
         op = st[0]
-        if op == 'let':
-            out.append(f'{pad}{st[1]} = {rx(st[2])}')
+        if op == 'let':          # st[1]: a name, or a tuple of names (tuple pattern)
+            out.append(f"{pad}{st[1] if isinstance(st[1], str) else ', '.join(st[1])} = {rx(st[2])}")
         elif op == 'rete':
             out.append(f'{pad}return {rx(st[1])}')
         elif op in ('if1x', 'ifex'):
@@ -318,4 +318,36 @@ def _family_e():
     return list(dict.fromkeys(out))          # R = u makes a few shapes coincide
 
 
-E_PROGRAMS = _family_e()
+# ---- family W: a `while` condition that reads each candidate name ----------
+#
+# k = 0; [R = u]; while k < n and R > 0: k = k + 1; <body>; return u | return R
+# with R bound only in the body (plain, tuple pattern, inside with / if-else / one-armed if, as a for
+# target), only before the loop, both, or nowhere.  Terminates: k counts up to the input n.
+
+W_NAMES = ('a', 'b', 'x', 'i')
+
+
+def _family_w():
+    out = []
+    for r in W_NAMES:
+        R, bind = N(r), ('let', r, N('u'))
+        cond = OP('{} < {} and {} > 0', N('k'), N('n'), R)
+        bodies = (
+            (bind,),
+            (('let', (r, 'w'), OP('({}, {})', N('u'), N('v'))),),
+            (('with', (bind,)),),
+            (('with', (('let', ('w', r), OP('({}, {})', N('v'), N('u'))),)),),
+            (('ife', (bind,), (bind,)),),
+            (('if1', (bind,)),),
+            (('pass',),),
+            (('fore', (('pass',),)),),
+        )
+        for pre in ((), (bind,)):
+            for body in bodies:
+                for post in (('ret_u',), ('rete', R)):
+                    out.append((('k=0',),) + pre + (('whilex', cond, body), post))
+    return out
+
+
+W_PROGRAMS = _family_w()
+E_PROGRAMS = _family_e() + W_PROGRAMS
